@@ -9,6 +9,7 @@ def decPatch (j : J) : M Patch := do
     | "result" => do pure (PatchPayload.result (← decJ (← fld pj "v")))
     | "error" => do pure (PatchPayload.error (← decError (← fld pj "err")))
     | "callback" => do pure (PatchPayload.callback (← str (← fld pj "tag")))
+    | "callback_raises" => pure PatchPayload.callbackRaises
     | "nothing" => pure PatchPayload.nothing
     | k => throw s!"bad payload {k}"
   return ⟨← bool (← fld j "once"), payload, ← decId (fldD j "id")⟩
